@@ -575,7 +575,19 @@ def describe_arg(I, fr, v, tyid):
         return ('ref?', pn, tuple(sorted(tm.show(x) for x in I.typed_deps(v, tyid))))
     if isinstance(v, T):
         return ('val', t['n'], tm.show(v, 0, 8))
-    return ('val', t['n'], tuple((o, tm.show(c[1], 0, 6)) for o, c in sorted(v.cells.items())))
+    cells = []
+    for o, c in sorted(v.cells.items(), key=lambda x: str(x[0])):
+        txt = tm.show(c[1], 0, 6)
+        # captured references (closure environments): show a constant pointee
+        tg = I.ptr_targets(c[1]) if isinstance(c[1], T) else []
+        if len(tg) == 1:
+            obj = I.heap.get(tg[0][0])
+            if obj is not None:
+                pc = [cc for oo, cc in obj.cells.items() if oo == tg[0][1]]
+                if pc and tm.is_const(pc[0][1]):
+                    txt += '->const(%d)' % tm.cbits(pc[0][1])
+        cells.append((o, txt))
+    return ('val', t['n'], tuple(cells))
 
 
 def effect_leaf(returns_arg0=False):
